@@ -3,7 +3,7 @@ _P = 'xdoctest.utils.util_import:PythonPathContext.'
 PROPERTY = {
     'id': 'C12',
     'contract_modules': ['util_stream', 'util_import'],
-    'functions': [_Q + 'start', _Q + 'stop', _Q + 'log_part', _Q + '__enter__', _Q + '__exit__',
+    'functions': [_Q + '__init__', 'xdoctest.utils.util_stream:TeeStringIO.__init__', _Q + 'start', _Q + 'stop', _Q + 'log_part', _Q + '__enter__', _Q + '__exit__',
                   _P + '__init__', _P + '__enter__', _P + '__exit__',
                   'xdoctest.utils.util_import:_custom_import_modpath',
                   'xdoctest.utils.util_import:split_modpath', 'xdoctest.utils.util_import:modpath_to_modname',
